@@ -140,13 +140,14 @@ class C18(Check):
             'float class, data seed), transport stream|file, file encoding None|utf-8). String classes: plain, blanks at any position incl. '
             'first/last, double quotes, escape chars, separators, unicode, adversarial mix of all (no \\n/\\r); float classes: special values '
             '(-0.0, negative fractions, 17 significant digits, subnormal, max), random 64-bit patterns (finite), short decimals, 17-digit, integral. '
-            'Files of 1500..4000 rows cross the 64 KiB read boundary several times. non-trivial = the row set contains a string with a special '
+            'The schema is given in each documented form: list of (name, class), list of (name, type name), typing.NamedTuple class, none (header). Files of 1500..4000 rows cross the 64 KiB read boundary several times. non-trivial = the row set contains a string with a special '
             'character (separator, quote, escape char, blank) or a non-integral float; distinct = hash of the case')
     ASSUMPTIONS = ['strings contain no newline characters; separator does not contain the quote or escape character (domain of the property)',
                    'floats are finite and compared with == plus sign']
     ANCHORS = ['rxsci/container/csv.py', 'rxsci/io/file.py', 'rxsci/framing/line.py']
     REQUIRED_TAGS = ['stream', 'file', 'enc=None', 'enc=utf-8', 'multi-chunk-file', 'cols=1', 'cols=8',
-                     'skind=adversarial', 'skind=huge', 'skind=control', 'fkind=bits', 'sep=,', 'sep=;', 'sep=|', 'sep=tab', 'sep=multi', 'pushed-source', 'multibyte-char-across-a-64KiB-boundary', 'rows-not-retained']
+                     'skind=adversarial', 'skind=huge', 'skind=control', 'fkind=bits', 'sep=,', 'sep=;', 'sep=|', 'sep=tab', 'sep=multi', 'pushed-source', 'multibyte-char-across-a-64KiB-boundary', 'rows-not-retained',
+                     'schema=names', 'schema=typed_namedtuple', 'schema=header']
     REQUIRED_OBSERVED = ['fields_compared', 'rows_needing_quote_merge']
 
     def __init__(self):
@@ -182,7 +183,12 @@ class C18(Check):
                 cols = cols + [rng.choice(['int', 'float', 'bool', 'str', 'str', 'float']) for _ in range(4)]
             if big and (k // file_every) % 4 == 0:
                 cols = ['str', 'int', 'str', 'str']
-            yield {'cols': cols, 'sep': SEPS[k % len(SEPS)], 'esc': ESCS[(k // len(SEPS)) % 2],
+            # the documented schema forms: list of (name, class), list of (name, type NAME), a typing.NamedTuple class, and no
+            # schema at all (the header names the columns, every field is a string)
+            schema = ('classes', 'classes', 'classes', 'names', 'names', 'typed_namedtuple', 'typed_namedtuple', 'header')[(k // 3) % 8]
+            if schema == 'header':
+                cols = ['str'] * len(cols)
+            yield {'cols': cols, 'sep': SEPS[k % len(SEPS)], 'esc': ESCS[(k // len(SEPS)) % 2], 'schema': schema,
                    'rows': {'n': rng.randint(1500, 4000) if big else rng.choice([0, 1, 2, 5, 20]),
                             'skind': 'dense_unicode' if (big and (k // file_every) % 4 == 0) else skinds[k % len(skinds)], 'fkind': fkinds[(k // 2) % len(fkinds)],
                             'rseed': rng.randrange(1 << 30)},
@@ -193,7 +199,7 @@ class C18(Check):
         out = Outcome()
         cols, sep, esc = case['cols'], case['sep'], case['esc']
         rows = build_rows(case['rows'], cols, sep, esc)
-        names = ['c%d' % i for i in range(len(cols))]
+        names = ['c%d' % i for i in range(len(cols))] if case['rows']['rseed'] % 2 else ['%s%d' % ('zyxwvuts'[i], i) for i in range(len(cols))]
         Row = namedtuple('Row', names)
         src = [Row(*r) for r in rows]
         if case['rows']['rseed'] % 3 == 0:
@@ -203,7 +209,17 @@ class C18(Check):
             out_tag_fresh = True
         else:
             out_tag_fresh = False
-        dtype = [(n, TYPES[t]) for n, t in zip(names, cols)]
+        schema = case.get('schema', 'classes')
+        if schema == 'names':
+            dtype = [(n, ''.join(list(t))) for n, t in zip(names, cols)]
+        elif schema == 'typed_namedtuple':
+            import typing
+            dtype = typing.NamedTuple('Row', [(n, TYPES[t]) for n, t in zip(names, cols)])
+        elif schema == 'header':
+            dtype = None
+        else:
+            dtype = [(n, TYPES[t]) for n, t in zip(names, cols)]
+        out.tags.append('schema=' + schema)
         parser = call(csv.create_line_parser, [('dtype', dtype), ('none_values', []), ('separator', sep), ('escapechar', esc)])
         if out_tag_fresh:
             out.tags.append('rows-not-retained')
